@@ -432,15 +432,17 @@ func (c *Cmt) produceBlock(args *BlockArgs) bool {
 		}
 	}
 	for _, n := range w.aliveNodes() {
-		if n.Height == h {
-			c.recheck(n)
-		}
 		if n.Pool != nil {
 			n.Pool.Junk = nil
 		}
 	}
 	w.JunkVotes = 0
 	w.afterBlock(b)
+	for _, n := range w.aliveNodes() {
+		if n.Height == h {
+			c.recheck(n)
+		}
+	}
 	return true
 }
 
